@@ -1,7 +1,7 @@
 """C05 - CFDP fixed PDU header per CCSDS 727.0-B-5 §5.1, round trip, refusals."""
 from .cfdp_common import *  # noqa: F403
 from spacepackets.cfdp.pdu.header import PduHeader, AbstractPduBase
-from spacepackets.cfdp.defs import UnsupportedCfdpVersion
+from spacepackets.cfdp.defs import UnsupportedCfdpVersion, PduType, SegmentMetadataFlag
 from spacepackets.exceptions import BytesTooShortError
 
 PROPERTY = "C05"
@@ -113,6 +113,52 @@ def h_refuse_len(ctx):
     ctx.holds("setter accepts <= 65535", e is None, exc_name(e))
 
 
+SETTERS = ("pdu_type", "segmeta", "direction", "mode", "crc", "large", "segctrl", "dlen", "ids", "seq")
+
+
+def h_setters(ctx, order, idw2, seqw2):
+    """every field assigned after construction, in the given order: the next pack() is the reference layout of the new values
+    (no assignment may disturb another field), and the decode of it gives them back"""
+    conf, v = sym_conf(ctx, 1, 2)
+    h = PduHeader(en(ctx, PduType, ctx.flag("ptype")), en(ctx, SegmentMetadataFlag, ctx.flag("segmeta")), ctx.int("dlen", 0, 65535), conf)
+    h.pack()
+    conf2, w = sym_conf(ctx, idw2, seqw2, prefix="n_")
+    ptype2, segm2, dlen2 = ctx.flag("n_ptype"), ctx.flag("n_segmeta"), ctx.int("n_dlen", 0, 65535)
+    do = dict(
+        pdu_type=lambda: setattr(h, "pdu_type", en(ctx, PduType, ptype2)),
+        segmeta=lambda: setattr(h, "segment_metadata_flag", en(ctx, SegmentMetadataFlag, segm2)),
+        direction=lambda: setattr(h, "direction", conf2.direction), mode=lambda: setattr(h, "transmission_mode", conf2.trans_mode),
+        crc=lambda: setattr(h, "crc_flag", conf2.crc_flag), large=lambda: setattr(h, "file_flag", conf2.file_flag),
+        segctrl=lambda: setattr(h, "seg_ctrl", conf2.seg_ctrl), dlen=lambda: setattr(h, "pdu_data_field_len", dlen2),
+        ids=lambda: h.set_entity_ids(conf2.source_entity_id, conf2.dest_entity_id),
+        seq=lambda: setattr(h, "transaction_seq_num", conf2.transaction_seq_num))
+    for name in order:
+        e, _ = call(do[name])
+        if e is not None:
+            ctx.fail("assignment of %s raised" % name, exc_name(e))
+            return
+    ref = ref_header(w, ptype2, segm2, dlen2)
+    e, raw = call(h.pack)
+    ctx.holds("pack after assigning every field == reference of the new values", e is None and raw == ctx.bytes_of(ref), exc_name(e))
+    n = 4 + 2 * idw2 + seqw2
+    ctx.holds("lengths follow the assignments", sym_and(h.header_len == n, h.packet_len == n + dlen2))
+    e, u = call(PduHeader.unpack, ctx.bytes_of(ref))
+    ctx.holds("decode of the new octets == the updated header", e is None and sym_and(u == h, u.pack() == ctx.bytes_of(ref)), exc_name(e))
+
+
+def h_refused_assignment(ctx):
+    """a refused data-field length leaves the header as it was"""
+    conf, v = sym_conf(ctx, 2, 1)
+    ptype, segm, dlen = ctx.flag("ptype"), ctx.flag("segmeta"), ctx.int("dlen", 0, 65535)
+    h = PduHeader(ptype, segm, dlen, conf)
+    ref = ref_header(v, ptype, segm, dlen)
+    e, _ = call(setattr, h, "pdu_data_field_len", ctx.int("big", 65536, 1 << 40))
+    ctx.holds("setter refuses > 65535 with ValueError", isinstance(e, ValueError), exc_name(e))
+    e, raw = call(h.pack)
+    ctx.holds("after a refused assignment the header still packs to its old octets",
+              e is None and sym_and(raw == ctx.bytes_of(ref), h.pdu_data_field_len == dlen, h.packet_len == 9 + dlen), exc_name(e))
+
+
 def h_refuse_widths(ctx, w1, w2):
     src = UnsignedByteField(ctx.int("src", 0, (1 << (8 * w1)) - 1), w1)
     dst = UnsignedByteField(ctx.int("dst", 0, (1 << (8 * w2)) - 1), w2)
@@ -139,6 +185,14 @@ def cases(tier):
         cs.append(Case("decode-n%d" % n, "decode", h_decode, dict(n=n), bounds="every octet string of length %d" % n,
                        must_reach=(["reach:rejected"] if n >= 4 else []) + (["reach:accepted"] if n >= 7 else [])))
     cs.append(Case("refuse-datalen", "refuse", h_refuse_len, {}, bounds="data-field length 0..2^64"))
+    cs.append(Case("refused-assignment", "refuse", h_refused_assignment, {}, bounds="all field values, refused length 65536..2^40"))
+    orders = [SETTERS, SETTERS[::-1], SETTERS[3:] + SETTERS[:3], ("segmeta", "pdu_type") + SETTERS[2:]]
+    if tier == "thorough":
+        orders += [SETTERS[k:] + SETTERS[:k] for k in (1, 2, 5, 7)] + [SETTERS[::-1][k:] + SETTERS[::-1][:k] for k in (1, 4, 8)]
+    for k, order in enumerate(orders):
+        for w in tier_pick(tier, ((2, 1), (4, 8)), ((1, 1), (2, 1), (4, 8), (8, 4))):
+            cs.append(Case("setters-order%d-w%d%d" % (k, w[0], w[1]), "setters", h_setters, dict(order=order, idw2=w[0], seqw2=w[1]),
+                           bounds="all old and new field values, assignment order %s, new widths %d/%d" % (",".join(order), w[0], w[1])))
     for w1 in (1, 2, 4, 8):
         for w2 in (1, 2, 4, 8):
             cs.append(Case("refuse-widths-%d-%d" % (w1, w2), "refuse", h_refuse_widths, dict(w1=w1, w2=w2),
